@@ -79,6 +79,13 @@ def run(ctx: Ctx) -> None:
             if new in used or new in RESERVED:
                 continue
             jobs.append((p, names, {b: new}))
+        # an identifier renamed to a name that carries a word tranp gives a meaning to (Enum, Generic, list method names, ...) as prefix / suffix
+        classes_ = [n for n in names if re.search(r'^class %s\b' % re.escape(n), p.src, flags=re.M)]
+        based = [n for n in classes_ if re.search(r'^class \w+\(%s\)' % re.escape(n), p.src, flags=re.M)]
+        for b, word in [(rnd.choice(based or classes_ or names), rnd.choice(['Enum', 'Generic', 'Exception', 'Protocol'])), (rnd.choice(names), rnd.choice(['len', 'range', 'print', 'list', 'dict', 'int', 'str', 'super', 'Callable', 'TypeVar', 'append', 'pop', 'keys']))]:
+            new = rnd.choice(['My' + word, 'Base' + word, word + 'Like', word + '2', word.lower() + '_x'])
+            if new not in used and new not in RESERVED:
+                jobs.append((p, names, {b: new}))
         # a function that returns an instance of a class, named with the class name as a prefix (and the converse)
         for cls_name, fn_name in [(m.group(2), m.group(1)) for m in re.finditer(r'^def (\w+)\([^)]*\) -> (\w+):', p.src, flags=re.M) if re.search(r'^class %s\b' % m.group(2), p.src, flags=re.M)][:2]:
             for mp in ({fn_name: cls_name + '_build'}, {cls_name: fn_name[:-1]} if len(fn_name) > 2 else {}):
